@@ -43,6 +43,24 @@ CHECKS = {
     "C10": _expl("paired-execution monitor: batched model vs the unbatched model row by row",
                  "N pairwise-distinct parameter vectors and datasets go through Model(spec, batch_size=N) and through the unbatched model; every row of expected data, by-sample rates, log-densities and the sampled-data shape must agree.",
                  "Oracle is the unbatched model itself; N<=8.", "§3 C10"),
+    "C11": _expl("trace monitor over switch/create/delete/eval histories with an offline fresh-object oracle",
+                 "Random histories of set_backend(name, precision, optimizer) interleaved with creation, deletion (+gc) and evaluation of models, interpolators and viewers are executed and logged; every eval of an object born before the last switch must equal (value, tensor type, dtype) the eval of a fresh object created at that moment; no switch or eval may raise.",
+                 "Histories up to 14 events over the four built-in backends; objects pyhf itself still references (jit cache) are not 'collected'.", "§3 C11"),
+    "C14": _expl("exact counting oracle on EmpiricalDistribution, moment z-tests on sampled pseudo-data, toy p-values vs exactly enumerated tail probabilities, hook on the sampled pdf objects",
+                 "(a) pvalue == count(s>=v)/n exactly with ties and out-of-range values on every backend; (b) 20000 draws per model/point: shape, integer non-negative counts, per-bin mean/variance vs rate, auxiliary mean/sd vs constraint terms; (c) toy CL_s+b/CL_b of small counting models within 6 binomial sigma of the enumerated probability; the pdf objects sampled inside ToyCalculator.distributions must sit at the conditional best fits of mu_test and mu=0 (1 for q0).",
+                 "Statistical verdicts at fixed seeds (false-alarm < 1e-7 per run); samplers of scipy/torch/TFP trusted as part of observable behaviour.", "§3 C14"),
+    "C15": _expl("metamorphic pair monitor: inference on a model vs on a likelihood-preserving rewrite / another configuration",
+                 "Maximised likelihood, observed and expected CLs and upper limits are compared between each generated model and its rewrites (permute, rename, zero-yield sample, null systematics, channel split, sample split/merge, signal scaling with covariance) and compositions, across the four backends and against MINUIT at tight tolerance.",
+                 "Relations hold up to calibrated optimiser noise (<=2.5e-6 observed, 1e-4 allowed); a defect common to both sides is invisible here.", "§3 C15"),
+    "C16": _expl("monitor on Workspace.combine/prune/rename/sorted with reference set-algebra on raw dicts and likelihood factorisation identities",
+                 "Generated workspace pairs (disjoint, overlapping-identical, overlapping-conflicting) under all join modes: content union, mainlogpdf factorisation with parameters identified by name, each constrained set once, advertised refusals; prune vs independent filter (+ channel-prune factorisation), rename vs relabelling and its inverse, sorted idempotent/canonical/likelihood-preserving; outputs schema-valid, inputs untouched.",
+                 "Only advertised refusals are demanded; merge_channels with clashing sample definitions is unjudged.", "§3 C16"),
+    "C18": _expl("history monitor on writexml -> readxml.parse cycles into same/different directories",
+                 "Exportable generated workspaces are written and parsed back; structure, yields, observations, POI, constant flags and modifier data are diffed, the likelihoods of original and re-imported models are compared at random parameters/aux data/datasets with parameters mapped by name, lumi centre and sigma must be recovered, and re-exports into already imported directories must return the new content.",
+                 "Generator restricted to what HistFactory XML can express; uproot I/O trusted as observable behaviour.", "§3 C18"),
+    "C19": _expl("boundary monitor on CLI invocations (CliRunner + real processes) vs the library call on the same inputs",
+                 "Every subcommand with random option combinations, stdin/file input and stdout/file output is compared with the corresponding library call from a fresh backend state: exit status iff success, JSON/text equal, file output equal to stdout, failing invocations fail.",
+                 "Toy-based cls only once per run (no seed option on the CLI); contrib/completion subcommands out of scope.", "§3 C19"),
     "C12": _expl("icontract postcondition on Model.__init__ + monitors on Workspace.data/build/model; permutation and mutation witnesses",
                  "Pure structural predicates over the public configuration (slices tile the parameter vector, one entry per component, channel slices tile the data, aux layout), overrides verbatim/defaults otherwise, Workspace.data layout, Workspace.build round trip, caller's dict untouched, invariance under permutations of every list.",
                  "Structural predicates exact; likelihood comparisons 1e-9.", "§3 C12"),
